@@ -113,6 +113,13 @@ class OverrideSpec:
         m = getattr(self, 'spec_' + self.cls, None)
         if m is not None:
             m(ex, ctx, outcome)
+        # C07 / C16 / C01: an error raised by a child evaluation or by the callee of a call leaves the node as it is
+        # (class unchanged): no node wraps or swallows what its operands raise
+        failed = [e for e in ex.events if e[0] == 'call' and e[1] in ('op_eval', 'ucc') and e[5] is not None]
+        if failed:
+            c = failed[-1][5]
+            ex.prove('C07:%s:an-error-of-an-operand-or-callee-propagates-unchanged' % fn(ex), ['C07', 'C16', 'C01'],
+                     (outcome[1] == c) if outcome[0] == 'raise' else False, soft=True)
         if self.cls not in ('NameOp', 'CallOp', 'ShortOp'):
             # C18 L4: only variable reads, calls and compound assignments ask the names mapping for a name
             lookups = [e for e in ex.events if e[0] == 'lookup']
